@@ -208,9 +208,29 @@ def cases(tier, seed, flavour):
     for t in triples:
         for o in tobj:
             yield {'obj': o, 'cons': [CNAMES[i] for i in t], 'ko': k3, 'kc': k3, 'rot': seed}
+    for c in _cases_opsolve_hist(tier, seed):
+        yield c
+
+
+def _run_opsolve_hist(case):
+    """solve / edit / solve histories of one op whose status changes on the way (checks/opsolve_hist.py)"""
+    from mc import cvx
+    from checks import opsolve_hist as H
+    ns, nh, viol, outcomes = H.run(PROPERTY, case['depth'], case['variant'], case['fmt'], case['solver'])
+    return {'n': ns, 'nontrivial': ns - nh, 'viol': viol, 'outcomes': {'opsolve-history:' + k: v for k, v in outcomes.items()},
+            'states': ns, 'transitions': ns, 'traces': nh}
+
+
+def _cases_opsolve_hist(tier, seed):
+    for variant in ((seed % 4, (seed + 1) % 4) if tier == 'quick' else (0, 1, 2, 3)):
+        for fmt in ('dense', 'sparse'):
+            for solver in ('default', 'glpk'):
+                yield {'part': 'opsolve-hist', 'variant': variant, 'fmt': fmt, 'solver': solver, 'depth': 5 if tier == 'quick' else 6}
 
 
 def crash_key(case):
+    if case.get('part') == 'opsolve-hist':
+        return 'opsolve-hist'
     return 'solve:%s:%s' % (case.get('obj'), '+'.join(case.get('cons', [])))
 
 
@@ -743,6 +763,9 @@ def cross(R, obs, st):
 def run(case):
     from mc import cvx
     from cvxopt import solvers
+    if case.get('part') == 'opsolve-hist':
+        solvers.options.clear()
+        return _run_opsolve_hist(case)
     solvers.options['show_progress'] = False
     for k in ('abstol', 'reltol', 'feastol', 'maxiters', 'refinement'):
         solvers.options.pop(k, None)        # default solver options (abstol 1e-7, reltol 1e-6, feastol 1e-7)
